@@ -457,6 +457,10 @@ def main():
         sys.exit(vreplay.replay(a.pid, a.replay))
     spec = specs.SPECS[a.pid]
     queries = spec['queries'](a.tier)
+    if a.tier == 'thorough':
+        # the thorough tier is a superset: every scenario of the quick tier that has no namesake here is run as well
+        have = {q.name for q in queries}
+        queries = queries + [q for q in spec['queries']('quick') if q.name not in have]
     if a.list:
         for q in queries: print(q.name, q.cpp, q.defines, q.q.get('rounds'), q.q.get('order'))
         return
